@@ -172,10 +172,21 @@ func (h *HttpServer) readHTTPBody(r *http.Request) ([]byte, error) {
 		decompressedCap := h.maxDecompressedBodySize
 		if requestCapApplied && (decompressedCap <= 0 || limit < decompressedCap) {
 			decompressedCap = limit
-		} else if decompressedCap <= 0 && limit > 0 {
+		} else if decompressedCap == 0 && limit > 0 {
 			decompressedCap = limit * 16
 		}
-		return decompressBounded(encoding, body, decompressedCap)
+		// A negative maxDecompressedBodySize disables the decompressed cap
+		// (SetMaxDecompressedBodySize); decompressBounded reads <= 0 as unbounded.
+		decoded, err := decompressBounded(encoding, body, decompressedCap)
+		var tooLarge *requestBodyTooLargeError
+		if errors.As(err, &tooLarge) && !(requestCapApplied && decompressedCap == limit) {
+			// The bound that was exceeded is the decompressed-size cap (explicit or
+			// derived as maxBodySize*16), not the advertised max_request_bytes:
+			// report it as such (HTTP 400), like the raw maxBodySize overrun above.
+			return nil, &RpcError{Type: "ValueError", Message: fmt.Sprintf(
+				"Decompressed request body exceeds maximum size of %d bytes", decompressedCap)}
+		}
+		return decoded, err
 	default:
 		return nil, &unsupportedEncodingError{Encoding: encoding}
 	}
